@@ -6,7 +6,7 @@ Stage kinds (every stage maps the running tensor T with c channels to a new T):
   conv      {'op':'conv','cout','k','d','s','bias','bn','pad':'causal'|'same'|'sym'|'valid','dw','act'}
   residual  relu(convA(T) + convB(T))                      {'op':'residual','cout', conv options of A via 'a'}
   skipadd   relu(T + conv(T))                              {'op':'skipadd'}
-  concat    cat([m1(T), m2(T), ...], dim=1)                {'op':'concat','members':['conv'|'id'|'xconv'|'dwconv',...]}
+  concat    cat([m1(T), m2(T), ...], dim=1)                {'op':'concat','members':['conv'|'id'|'xconv'|'dwconv'|'mp'|'ap',...]}
   timecat   cat([convA(T), convB(T)], dim=2)   (1D only)   {'op':'timecat','cout'}
   pool      {'op':'pool','kind':'max'|'avg'|'adaptive'}
   twice     relu(L(T) + L(dropout(T)))                     {'op':'twice','cout'}  (c -> cout needs cout == c? no: L: c->cout applied to T twice)
@@ -109,6 +109,10 @@ class Net(nn.Module):
                 for j, m in enumerate(st['members']):
                     if m == 'id':
                         tot += c
+                    elif m in ('mp', 'ap'):     # "concat pooling": size-preserving max / average pooling of the same tensor
+                        P = {(1, 'mp'): nn.MaxPool1d, (1, 'ap'): nn.AvgPool1d, (2, 'mp'): nn.MaxPool2d, (2, 'ap'): nn.AvgPool2d}[(dim, m)]
+                        self.blocks[f's{i}m{j}'] = P(3, stride=1, padding=1)
+                        tot += c
                     elif m == 'dwconv':
                         self.blocks[f's{i}m{j}'] = _ConvBlock(dim, c, {'dw': True, 'act': None})
                         tot += c
@@ -182,6 +186,8 @@ class Net(nn.Module):
                 self.head['gap'] = nn.AdaptiveAvgPool1d(1) if dim == 1 else nn.AdaptiveAvgPool2d(1)
                 sp = 1
             self.head['fc'] = nn.Linear(3 * sp, h.get('out', 3))
+        elif self._hk == 'flatout':
+            pass
         else:
             raise ValueError(self._hk)
 
@@ -219,6 +225,8 @@ class Net(nn.Module):
     def forward(self, x):
         x = self._features(x)
         h = self.prog['head']
+        if self._hk == 'flatout':     # the network output is the flattened activation of the last conv (no final Linear)
+            return x.flatten(1)
         if self._hk == 'flatlin':
             fl = h.get('flat', 'module')
             if fl == 'module':
@@ -321,10 +329,10 @@ def layer_names(prog):
         elif op in ('skipadd', 'twice'):
             out.append(f'blocks.s{i}a.conv')
         elif op == 'concat':
-            out += [f'blocks.s{i}m{j}.conv' for j, m in enumerate(st['members']) if m != 'id']
+            out += [f'blocks.s{i}m{j}.conv' for j, m in enumerate(st['members']) if m not in ('id', 'mp', 'ap')]
     hk = prog['head']['kind']
     out += {'flatlin': ['head.fc'], 'gaplin': ['head.fc1', 'head.fc'], 'fcn': ['head.out'], 'fcnadd': ['head.out', 'head.out2'],
-            'flatadd': ['head.fa', 'head.fb', 'head.fc']}[hk]
+            'flatadd': ['head.fa', 'head.fb', 'head.fc'], 'flatout': []}[hk]
     return out
 
 
@@ -362,7 +370,7 @@ def alive_ref(prog, own, flat_mult):
         elif op == 'concat':
             parts = []
             for j, m in enumerate(st['members']):
-                parts += list(T) if m == 'id' else conv(f'blocks.s{i}m{j}.conv', T, m == 'dwconv')
+                parts += list(T) if m in ('id', 'mp', 'ap') else conv(f'blocks.s{i}m{j}.conv', T, m == 'dwconv')
             T = parts
     hk = prog['head']['kind']
     if hk == 'flatlin':
@@ -580,6 +588,11 @@ def must_be_full(prog):
                 if m == 'dwconv' and tied:
                     out.add(f'blocks.s{i}m{j}.conv')
             tied = False
+    if prog['head']['kind'] == 'flatout':
+        last = prog['stages'][-1]
+        assert last['op'] == 'conv' and not last.get('dw'), 'flatout is only defined after a plain conv stage'
+        out.add(f"blocks.s{len(prog['stages']) - 1}.conv")
+        return out
     out.add({'flatlin': 'head.fc', 'gaplin': 'head.fc', 'fcn': 'head.out', 'fcnadd': 'head.out', 'flatadd': 'head.fc'}[prog['head']['kind']])
     if prog['head']['kind'] == 'fcnadd':
         out.add('head.out2')
@@ -598,6 +611,16 @@ def gen_special(dims=(1, 2)):
                     out.append({'dim': dim, 'cin': 3, 'size': _size(dim), 'stages': [dict({'op': 'conv'}, **o), dict(nxt)], 'head': dict(h)})
         for st in ([{'op': 'conv'}], [{'op': 'residual'}], [{'op': 'conv'}, {'op': 'pool', 'kind': 'max'}]):
             out.append({'dim': dim, 'cin': 3, 'size': _size(dim), 'stages': [dict(x) for x in st], 'head': {'kind': 'fcnadd'}})
+        # a concat whose operands all have a constant width (the network input and pooled copies of it)
+        for mem in (['id', 'mp'], ['mp', 'ap']):
+            for h in HEADS[:2]:
+                out.append({'dim': dim, 'cin': 3, 'size': _size(dim), 'stages': [{'op': 'concat', 'members': list(mem)}, {'op': 'conv'}], 'head': dict(h)})
+        # concat pooling: different nodes that derive from the SAME layer through features-propagating ops
+        for mem in (['mp', 'ap'], ['id', 'mp'], ['mp', 'conv', 'ap']):
+            for post in ([], [{'op': 'conv'}]):
+                for h in HEADS[:2]:
+                    out.append({'dim': dim, 'cin': 3, 'size': _size(dim),
+                                'stages': [{'op': 'conv'}, {'op': 'concat', 'members': list(mem)}] + [dict(x) for x in post], 'head': dict(h)})
             out.append({'dim': dim, 'cin': 3, 'size': _size(dim), 'stages': [dict(x) for x in st], 'head': {'kind': 'flatadd'}})
             out.append({'dim': dim, 'cin': 3, 'size': _size(dim), 'stages': [dict(x) for x in st], 'head': {'kind': 'flatadd', 'join': 'gap'}})
     return [p for p in out if _valid(p)]
